@@ -83,7 +83,7 @@ bool FileManager::readStream(std::istream &_istream, MeshT &_mesh,
     bool header_found = true;
 
     // Get first line
-    getCleanLine(_istream, line);
+    if (!getCleanLine(_istream, line)) return false;
     sstr.str(line);
 
     // Check header
@@ -115,7 +115,7 @@ bool FileManager::readStream(std::istream &_istream, MeshT &_mesh,
         sstr.clear();
         sstr.str(line);
     } else {
-        getCleanLine(_istream, line);
+        if (!getCleanLine(_istream, line)) return false;
         sstr.clear();
         sstr.str(line);
     }
@@ -131,7 +131,7 @@ bool FileManager::readStream(std::istream &_istream, MeshT &_mesh,
     } else {
 
         // Read in number of vertices
-        getCleanLine(_istream, line);
+        if (!getCleanLine(_istream, line)) return false;
         sstr.clear();
         sstr.str(line);
         sstr >> n_vertices;
@@ -141,7 +141,7 @@ bool FileManager::readStream(std::istream &_istream, MeshT &_mesh,
         // Read in vertices
         for(uint64_t i = 0u; i < n_vertices; ++i) {
 
-            getCleanLine(_istream, line);
+            if (!getCleanLine(_istream, line)) return false;
             sstr.clear();
             sstr.str(line);
             sstr >> v[0];
@@ -155,7 +155,7 @@ bool FileManager::readStream(std::istream &_istream, MeshT &_mesh,
      * Edges
      */
     size_t n_edges = 0;
-    getCleanLine(_istream, line);
+    if (!getCleanLine(_istream, line)) return false;
     sstr.clear();
     sstr.str(line);
     sstr >> s_tmp;
@@ -168,7 +168,7 @@ bool FileManager::readStream(std::istream &_istream, MeshT &_mesh,
     } else {
 
         // Read in number of edges
-        getCleanLine(_istream, line);
+        if (!getCleanLine(_istream, line)) return false;
         sstr.clear();
         sstr.str(line);
         sstr >> n_edges;
@@ -180,7 +180,7 @@ bool FileManager::readStream(std::istream &_istream, MeshT &_mesh,
 
             unsigned int v1 = 0;
             unsigned int v2 = 0;
-            getCleanLine(_istream, line);
+            if (!getCleanLine(_istream, line)) return false;
             sstr.clear();
             sstr.str(line);
             sstr >> v1;
@@ -200,7 +200,7 @@ bool FileManager::readStream(std::istream &_istream, MeshT &_mesh,
      * Faces
      */
     size_t n_faces = 0;
-    getCleanLine(_istream, line);
+    if (!getCleanLine(_istream, line)) return false;
     sstr.clear();
     sstr.str(line);
     sstr >> s_tmp;
@@ -213,7 +213,7 @@ bool FileManager::readStream(std::istream &_istream, MeshT &_mesh,
     } else {
 
         // Read in number of faces
-        getCleanLine(_istream, line);
+        if (!getCleanLine(_istream, line)) return false;
         sstr.clear();
         sstr.str(line);
         sstr >> n_faces;
@@ -225,7 +225,7 @@ bool FileManager::readStream(std::istream &_istream, MeshT &_mesh,
         // Read in faces
         for(uint64_t i = 0u; i < n_faces; ++i) {
 
-            getCleanLine(_istream, line);
+            if (!getCleanLine(_istream, line)) return false;
             sstr.clear();
             sstr.str(line);
 
@@ -272,7 +272,7 @@ bool FileManager::readStream(std::istream &_istream, MeshT &_mesh,
      * Cells
      */
     size_t n_cells;
-    getCleanLine(_istream, line);
+    if (!getCleanLine(_istream, line)) return false;
     sstr.clear();
     sstr.str(line);
     sstr >> s_tmp;
@@ -285,7 +285,7 @@ bool FileManager::readStream(std::istream &_istream, MeshT &_mesh,
     } else {
 
         // Read in number of cells
-        getCleanLine(_istream, line);
+        if (!getCleanLine(_istream, line)) return false;
         sstr.clear();
         sstr.str(line);
         sstr >> n_cells;
@@ -296,7 +296,7 @@ bool FileManager::readStream(std::istream &_istream, MeshT &_mesh,
         // Read in cells
         for(uint64_t i = 0u; i < n_cells; ++i) {
 
-            getCleanLine(_istream, line);
+            if (!getCleanLine(_istream, line)) return false;
             sstr.clear();
             sstr.str(line);
 
@@ -338,10 +338,9 @@ bool FileManager::readStream(std::istream &_istream, MeshT &_mesh,
         }
     }
 
-    while(!_istream.eof()) {
-        // "End of file reached while searching for input!"
-        // is thrown here. \TODO Fix it!
-
+    // good(): also stop when a property value could not be parsed (fail state
+    // without eof), otherwise getCleanLine() can never make progress again
+    while(_istream.good()) {
         // Read property
         readProperty(_istream, _mesh);
     }
